@@ -173,11 +173,14 @@ func (o *Operations) Move(from string, to string) error {
 		},
 
 		func(hdr *config.Header) {
-			o.onHeader(&config.HeaderEvent{
-				Type:    config.HeaderEventTypeMove,
-				Indexed: true,
-				Header:  hdr,
-			})
+			// The callback is optional here as well
+			if o.onHeader != nil {
+				o.onHeader(&config.HeaderEvent{
+					Type:    config.HeaderEventTypeMove,
+					Indexed: true,
+					Header:  hdr,
+				})
+			}
 		},
 	)
 }
